@@ -95,7 +95,10 @@ let () =
       let cfg4 = { udp_max = z_of_int (match kvi "udpmaxq" cfgw with Some v -> v | None -> 0);
                    has_cb = (kv "sockstatecb" cfgw = Some "1");
                    stayopen = List.mem "stayopen" flags;
-                   opt_sndbuf = has "sndbuf"; opt_rcvbuf = has "rcvbuf"; opt_dev = has "localdev"; opt_bind = has "localip4" } in
+                   opt_sndbuf = has "sndbuf"; opt_rcvbuf = has "rcvbuf"; opt_dev = has "localdev"; opt_bind = has "localip4";
+                   has_gsn = (match kv "sockfuncs" cfgw with Some ("nogsn" | "legacy") -> false | _ -> true);
+                   has_bind = (kv "sockfuncs" cfgw <> Some "legacy");
+                   sockopt_visible = (kv "sockfuncs" cfgw <> Some "legacy") } in
       let cfg6 = { cfg4 with opt_bind = has "localip6" } in
       let lines = Array.of_list (impl_lines impl k) in
       let n = Array.length lines in
@@ -128,7 +131,7 @@ let () =
            let seen_io = ref false in
            while !j < n && not !seen_io && (match words lines.(!j) with
                | ("SETSOCKOPT" | "BIND" | "CONNECT" | "GETSOCKNAME" | "CLOSE") :: s' :: _ -> sock_of s' = Some kk
-               | "SOCKSTATE" :: s' :: _ -> sock_of s' = Some kk && (match words lines.(!j - 1) with "GETSOCKNAME" :: _ -> true | _ -> false)
+               | "SOCKSTATE" :: s' :: _ -> sock_of s' = Some kk && (match words lines.(!j - 1) with "GETSOCKNAME" :: _ -> true | "CONNECT" :: _ -> not cfg4.has_gsn | _ -> false)
                | _ -> false) do
              (match words lines.(!j) with "CLOSE" :: _ | "SOCKSTATE" :: _ -> seen_io := true | _ -> ());
              incr j
@@ -148,7 +151,7 @@ let () =
              let connects = List.filter (fun x -> match words x with "CONNECT" :: _ -> true | _ -> false) seg in
              let intr = List.length (List.filter (fun x -> kv "errno" (words x) = Some "EINTR") connects) in
              let cok = (match List.filter (fun x -> kv "errno" (words x) <> Some "EINTR") connects with c :: _ -> connect_ok (words c) | [] -> false) in
-             let pred = probe (nat_of_int kk) true (nat_of_int intr) cok in
+             let pred = probe cfg4 (nat_of_int kk) true (nat_of_int intr) cok in
              (* getsockname failure and success both end in close *)
              if List.map ev_str pred <> List.map ev_str observed then
                diff (Printf.sprintf "probe s%d: model=[%s] impl=[%s]" kk (String.concat "; " (List.map ev_str pred)) (String.concat "; " (List.map ev_str observed)))
@@ -173,6 +176,7 @@ let () =
              (match res with OpenFailedClosed -> incr n_unwinds; feat "unwind" | _ -> ());
              if env.oe_intr <> O then feat "eintr";
              if env.oe_tfo_ok then feat "tfo";
+             if not cfg4.has_gsn then feat (if cfg4.sockopt_visible then "nogsn" else "legacy");
              (* an interrupted connect that is followed by nothing (list exhausted) cannot be told apart: compare as is *)
              if List.map ev_str pred <> List.map ev_str observed then
                diff (Printf.sprintf "open s%d: model=[%s] impl=[%s]" kk (String.concat "; " (List.map ev_str pred)) (String.concat "; " (List.map ev_str observed)))
